@@ -175,7 +175,7 @@ def check_python(ctx):
 # about `x is None` for the values it tested.  The clauses are stated on these paths, not on statement shapes.
 
 BANNED = (ast.Try, ast.Global, ast.Nonlocal, ast.With, ast.While, ast.For, ast.Lambda, ast.Yield, ast.YieldFrom, ast.Await,
-          ast.AsyncFunctionDef, ast.AsyncFor, ast.AsyncWith, ast.ClassDef, ast.Delete)
+          ast.AsyncFunctionDef, ast.AsyncFor, ast.AsyncWith, ast.ClassDef, ast.Delete, ast.ListComp, ast.DictComp, ast.SetComp, ast.GeneratorExp)
 
 
 class PyState:
@@ -213,6 +213,7 @@ class PyPaths:
         self.problems = []        # (kind, key, detail, node): "construct" = a statement/expression form outside the adapter language
         self.overflow = False
         self.inlined = set()
+        self.stack = []
 
     # ---- expressions → [(value, state)]
     def lookup(self, name, st):
@@ -273,10 +274,15 @@ class PyPaths:
                 if len(out) > self.MAX:
                     self.overflow = True
                     return out
-                if fv[0] == "func" and not star and depth < 4 and (len(fv) == 2 or fv[3] == depth):
+                if fv[0] == "func" and fv[1].name in self.stack:
+                    # a helper that calls itself is a loop: outside the adapter language, like `for`/`while` (reported once)
+                    if ("rec", fv[1].name) not in self.inlined:
+                        self.inlined.add(("rec", fv[1].name))
+                        self.problems.append(("construct", "%s:recursion" % fv[1].name, "the helper %s is recursive (a loop)" % fv[1].name, e))
+                elif fv[0] == "func" and not star and depth < 4 and (len(fv) == 2 or fv[3] == depth):
                     out.extend(self.inline(fv[1], vals, dict(zip(kwnames, kvs)), s2, depth, e, nested=len(fv) > 2))
                     continue
-                if fv[0] == "func":
+                if fv[0] == "func" and fv[1].name not in self.stack:
                     self.problems.append(("unread", fv[1].name, "the call of the helper %s could not be followed" % fv[1].name, e))
                 self.uid += 1
                 v = ("call", fv, vals + kvs, tuple(kwnames) + (("*",) if star else ()), self.uid, e)
@@ -310,8 +316,12 @@ class PyPaths:
         for x, d in zip(a.kwonlyargs, a.kw_defaults):
             env[x.arg] = kws.get(x.arg, ("const", d.value) if isinstance(d, ast.Constant) else ("opaque", src_name(d) if d is not None else "<missing>"))
         out = []
-        for kind, val, s1 in self.block(fn.body, st.set(env=env), depth + 1):
-            out.append((val if kind == "return" else ("const", None), s1.set(env=st.env)))
+        self.stack.append(fn.name)
+        try:
+            for kind, val, s1 in self.block(fn.body, st.set(env=env), depth + 1):
+                out.append((val if kind == "return" else ("const", None), s1.set(env=st.env)))
+        finally:
+            self.stack.pop()
         return out
 
     # ---- tests → [(truth, state)]
@@ -530,7 +540,7 @@ def check_fn(ctx, f, sp, modfuncs):
     failed = {c.partition(":")[0] for c in fails}
     for cl, txt in oks.items():
         if cl not in failed:
-            ctx.ok(cl, txt, nontrivial=cl not in ("K1.other-call",), sample={"paths": len(paths), "helpers": sorted(ev.inlined)})
+            ctx.ok(cl, txt, nontrivial=cl not in ("K1.other-call",), sample={"paths": len(paths), "helpers": sorted(x for x in ev.inlined if isinstance(x, str))})
 
 
 # ---------------------------------------------------------------------------------------------------------------
